@@ -299,7 +299,7 @@ def run_function(acc, rng, model, fname, F, ident0, tmpdir, rec_sig):
             proved = [b for b in bad if moma_not_unique(model, fname, b[0], [b[1], b[2]])]
             if proved:
                 acc.violation(
-                    f"C14/{fname.split('(')[0]}(linear moma)/growth-not-unique-at-the-minimal-adjustment-optimum",
+                    f"C14/{fname.split('(')[0]}/linear-moma/growth-not-unique-at-the-minimal-adjustment-optimum",
                     f"{fname}: {proved[0][0]} = {proved[0][1]} with {p} processes / this order, {proved[0][2]} serially; both lie in the exact range of the objective over all minimal-adjustment solutions",
                     dict(ident, item=proved[0][0], parallel=list(proved[0][1]), serial=list(proved[0][2]), n_differing=len(proved)),
                 )
@@ -326,7 +326,7 @@ def run_function(acc, rng, model, fname, F, ident0, tmpdir, rec_sig):
             k = it
             if "moma" in fname and k in one and k in base_res and not all(near(a, b) for a, b in zip(one[k], base_res[k])) and moma_not_unique(model, fname, k, [one[k], base_res[k]]):
                 acc.violation(
-                    f"C14/{fname.split('(')[0]}(linear moma)/growth-not-unique-at-the-minimal-adjustment-optimum",
+                    f"C14/{fname.split('(')[0]}/linear-moma/growth-not-unique-at-the-minimal-adjustment-optimum",
                     f"{fname}: {it} alone gives {one.get(k)}, in the full list {base_res.get(k)}; both lie in the exact range of the objective over all minimal-adjustment solutions",
                     dict(ident0, function=fname, item=it),
                 )
